@@ -372,3 +372,116 @@ def run_py(code, hashseed=None, timeout=600, args=()):
     e['PYTHONDONTWRITEBYTECODE'] = '1'
     return subprocess.run([sys.executable, '-c', code, *args], capture_output=True, text=True,
                           timeout=timeout, env=e, cwd=VERIF)
+
+
+# ----------------------------------------------------------------------------------
+# history differential: the value of an expression must not depend on what was built before it
+# ----------------------------------------------------------------------------------
+_HD_CODE = r"""
+import json, sys
+sys.setrecursionlimit(1000)
+from mc.env import NS
+spec = json.load(open(sys.argv[1]))
+exprs, seq = spec['exprs'], spec['seq']
+out = []
+for i in seq:
+    try:
+        r = eval(exprs[i], dict(NS))
+        out.append([i, str(r)])
+    except BaseException as ex:
+        out.append([i, '!' + type(ex).__name__])
+print('HD ' + json.dumps(out))
+"""
+
+_PROBE_CODE = r"""
+import json, os, sys
+sys.setrecursionlimit(1000)
+from mc.env import NS
+spec = json.load(open(sys.argv[1]))
+exprs, target = spec['exprs'], spec['target']
+def ev(e):
+    try:
+        return str(eval(e, dict(NS)))
+    except BaseException as ex:
+        return '!' + type(ex).__name__
+res = {}
+for ci, c in enumerate(spec['candidates']):
+    r, w = os.pipe()
+    pid = os.fork()
+    if pid == 0:
+        os.close(r)
+        ev(exprs[c])
+        os.write(w, ev(exprs[target]).encode('utf-8', 'surrogatepass')[:4000])
+        os._exit(0)
+    os.close(w)
+    data = b''
+    while True:
+        chunk = os.read(r, 65536)
+        if not chunk:
+            break
+        data += chunk
+    os.close(r)
+    os.waitpid(pid, 0)
+    res[c] = data.decode('utf-8', 'surrogatepass')
+print('PROBE ' + json.dumps({'alone': ev(exprs[target])[:4000], 'after': res}))
+"""
+
+
+def _child(code, payload, tag, hashseed=0):
+    import tempfile
+    td = tempfile.mkdtemp(prefix='hd_')
+    try:
+        path = os.path.join(td, 'spec.json')
+        with open(path, 'w', encoding='utf-8') as fh:
+            json.dump(payload, fh)
+        e = dict(os.environ)
+        e.update({'PYTHONHASHSEED': str(hashseed), 'PYTHONPATH': VERIF, 'PYTHONWARNINGS': 'ignore', 'PYTHONDONTWRITEBYTECODE': '1'})
+        r = subprocess.run([sys.executable, '-c', code, path], capture_output=True, text=True, env=e, cwd=VERIF, timeout=3000)
+        for line in r.stdout.splitlines():
+            if line.startswith(tag + ' '):
+                return json.loads(line[len(tag) + 1:])
+        raise Internal('history-differential child failed: ' + r.stderr[-800:])
+    finally:
+        import shutil
+        shutil.rmtree(td, ignore_errors=True)
+
+
+def fresh_eval(exprs):
+    """str() of the last expression after evaluating the earlier ones, in a fresh interpreter (used by replay snippets)"""
+    seq = list(range(len(exprs)))
+    return _child(_HD_CODE, {'exprs': list(exprs), 'seq': seq}, 'HD')[-1][1]
+
+
+def history_differential(run, exprs, label=''):
+    """Evaluates `exprs` in fresh interpreters in four orders (forward, reverse, each expression twice in a row,
+    odd positions before even ones).  An expression whose value differs between any two evaluations depends on
+    construction history; the shortest history [c, e] that shows it is searched by fork-probing and reported."""
+    from concurrent.futures import ThreadPoolExecutor
+    n = len(exprs)
+    fwd = list(range(n))
+    orders = {'forward': fwd, 'reverse': fwd[::-1], 'doubled': [i for i in fwd for _ in (0, 1)],
+              'odd-then-even': fwd[1::2] + fwd[0::2]}
+    with ThreadPoolExecutor(4) as ex:
+        outs = dict(zip(orders, ex.map(lambda seq: _child(_HD_CODE, {'exprs': exprs, 'seq': seq}, 'HD'), orders.values())))
+    seen = {}
+    for name, res in outs.items():
+        for i, o in res:
+            seen.setdefault(i, {}).setdefault(o, name)
+    bad = [i for i in fwd if len(seen[i]) > 1]
+    evaluations = sum(len(v) for v in orders.values())
+    for i in bad[:12]:
+        cands = [c for c in fwd if c != i]
+        probe = _child(_PROBE_CODE, {'exprs': exprs, 'target': i, 'candidates': cands + [i]}, 'PROBE')
+        culprit = next((int(c) for c, o in probe['after'].items() if o != probe['alone']), None)
+        vals = list(seen[i].items())
+        if culprit is not None:
+            run.add([V(f'{run.pid}|history|{exprs[i]}',
+                       f"{exprs[i]} is {probe['alone'][:120]!r} in a fresh interpreter but {probe['after'][str(culprit)][:120]!r} after {exprs[culprit]} was built",
+                       f"from mc.common import fresh_eval\nE = {exprs[i]!r}\nC = {exprs[culprit]!r}\nassert fresh_eval([E]) == fresh_eval([C, E]), (fresh_eval([E]), fresh_eval([C, E]))")])
+        else:
+            run.add([V(f'{run.pid}|history|{exprs[i]}',
+                       f"{exprs[i]} evaluates to {vals[0][0][:100]!r} in order {vals[0][1]} but {vals[1][0][:100]!r} in order {vals[1][1]} ({label})",
+                       f"# no two-step history reproduces it; orders: {vals!r}\nraise AssertionError('history-dependent value')")])
+    run.count('history_differential_expressions', n)
+    run.count('history_differential_evaluations', evaluations)
+    return evaluations
